@@ -167,7 +167,8 @@ def r3_r4_order(ctx, rule3="C03.R3", rule4="C03.R4", with_insert: bool = False) 
     prog = ctx.program
     hugr = prog.cls(f"{BASE}.Hugr")
     file = hugr.module.path
-    fn = hugr.methods["_to_serial"]
+    fn_o, _, _ = ctx.locate(f"{BASE}.Hugr._to_serial")
+    fn = ctx.cfn(f"{BASE}.Hugr._to_serial", inline={n.name for n in ast.walk(fn_o) if isinstance(n, ast.FunctionDef) and n is not fn_o})
     reuse = index_reuse_possible(hugr)
     # ---- which sequence is emitted
     sh = [c for c in calls_in(fn) if u(c.func).split(".")[-1] == "SerialHugr"][0]
@@ -187,15 +188,18 @@ def r3_r4_order(ctx, rule3="C03.R3", rule4="C03.R4", with_insert: bool = False) 
                   expected="an order derived from the hierarchy (root first, children lists)", found=u(src)[:120],
                   detail=f"order from {helper.name if helper else ''}() which walks .children from .root")
     # ---- insert_hugr visits parents before children
-    ih = hugr.methods.get("insert_hugr")
-    if ih is None:
-        ctx.broken("anchor vanished: Hugr.insert_hugr")
-    loops = [n for n in ast.walk(ih) if isinstance(n, ast.For) and any(
-        isinstance(x, ast.Subscript) and u(x.value) == "mapping" and isinstance(x.ctx, ast.Store) for x in ast.walk(n))]
+    from ..tmpl import T, tfind, tmatch
+    ih = ctx.cfn(f"{BASE}.Hugr.insert_hugr")
+    loops = []
+    for n in ast.walk(ih):
+        if isinstance(n, ast.For):
+            hits = [e for _, e in tfind(n.body, T("L_map[L_n] = E_new")) if e["L_n"] in [x.id for x in ast.walk(n.target) if isinstance(x, ast.Name)]]
+            if hits:
+                loops.append((n, hits[0]["L_map"]))
     if not loops:
         ctx.broken("Hugr.insert_hugr: node-copy loop not found")
-    lp = loops[0]
-    needs_parent_first = any(isinstance(x, ast.Subscript) and u(x.value) == "mapping" and isinstance(x.ctx, ast.Load) and "parent" in u(x.slice)
+    lp, mp = loops[0]
+    needs_parent_first = any(isinstance(x, ast.Subscript) and u(x.value) == mp and isinstance(x.ctx, ast.Load) and "parent" in u(x.slice)
                              for x in ast.walk(lp))
     h2 = hierarchy_helper(hugr, follow_local(ih, lp.iter))
     if not with_insert:
@@ -219,23 +223,17 @@ def r3_r4_order(ctx, rule3="C03.R3", rule4="C03.R4", with_insert: bool = False) 
             ctx.note("C03.R3 root-first not decidable while emission follows index order (see R4)")
     # own parent: the fallback for `parent is None` is the node's own renumbered handle
     nd = prog.cls(f"{BASE}.NodeData")
-    cands = []
-    for f in [fn] + [n for n in ast.walk(fn) if isinstance(n, ast.FunctionDef) and n is not fn] + [nd.methods.get("_to_serial")]:
-        if f is None:
-            continue
-        for n in ast.walk(f):
-            if isinstance(n, ast.IfExp) and "parent" in u(n.test):
-                cands.append((f, n))
+    cands = [n for n in ast.walk(fn) if isinstance(n, ast.IfExp) and "parent" in u(n.test)]
     ok = False
     found = ""
-    for f, n in cands:
+    for n in cands:
         found = u(n)
-        params = [a.arg for a in f.args.args]
-        other = n.orelse if "parent" in u(n.body) else n.body
-        # `rekey[node]` / `node` where node is the function's own node parameter or the loop's node
-        names = [x.id for x in ast.walk(other) if isinstance(x, ast.Name)]
-        if any(nm in params or nm == "node" for nm in names) and "parent" not in u(other):
-            ok = True
+        for tm in ("E_map[self[E_n].parent] if self[E_n].parent is not None else E_map[E_n]", "E_map[self[E_n].parent] if self[E_n].parent else E_map[E_n]",
+                   "E_map[E_d.parent] if E_d.parent is not None else E_map[E_n]"):
+            e = tmatch(n, T(tm))
+            if e is not None and "parent" not in e["E_n"]:
+                ok = True
+    cands = [(fn, n) for n in cands]
     ctx.check(ok, rule3, "Hugr._to_serial: the root is its own parent", file, (cands[0][1].lineno if cands else fn.lineno),
               "for the node without a parent the serialized parent must be the node's own (renumbered) index", cands[0][1] if cands else fn,
               found=found, detail=found)
